@@ -246,6 +246,19 @@ class World:
         except Exception as e:  # noqa
             return line, ('error', 'other:' + type(e).__name__)
 
+    def rewires(self, op):
+        """does `op` change the wiring of a name that a registered program uses (twin of QP.C18.rewires)"""
+        if op[0] in ('set-channel', 'set-channel-single', 'rm-channel'):
+            for rp in self.hs._registered_programs.values():
+                pid = self.pid_of.get(id(rp.program))
+                if pid is not None and op[1] in self.progs[pid]['channels']:
+                    return True
+        elif op[0] in ('set-measurement', 'set-measurement-single'):
+            for rp in self.hs._registered_programs.values():
+                if meas_name(op[1]) in rp.measurement_windows:
+                    return True
+        return False
+
     # -- observation -------------------------------------------------------------------------
     def _awg_idx(self, awg):
         for i, a in enumerate(self.awgs):
@@ -435,17 +448,20 @@ def execute(cfg, ndacs, ops, gen=None, skip=0):
     done_ops = []
     it = iter(ops) if gen is None else gen(w)
     prev, init_j = w.state_pair()
+    rewired = False
     for op in it:
         done_ops.append(op)
+        rw = w.rewires(op)
         line, res = w.apply(op)
+        rewired = rewired or (rw and res == 'ok')
         if len(steps) < skip:
             # shared set-up prefix, observed and checked by the history that consists of the prefix alone
-            steps.append({'line': line, 'res': res, 'state': None, 'prev': None, 'jstate': None})
+            steps.append({'line': line, 'res': res, 'state': None, 'prev': None, 'jstate': None, 'rewired': rewired})
             if len(steps) == skip:
                 prev, init_j = w.state_pair()
             continue
         st, jst = w.state_pair()
-        step = {'line': line, 'res': res, 'state': st, 'prev': prev}
+        step = {'line': line, 'res': res, 'state': st, 'prev': prev, 'rewired': rewired}
         if res == 'ok':
             step['jstate'] = jst
             if op[0] == 'register':
@@ -474,8 +490,13 @@ def lean_lines(h, fix=True):
         if s['res'] != 'ok' or i < skip:
             continue
         js = state_sx(s['jstate'])
-        judges.append((i, 'inv', sx(['c18', 'judge', js])))
-        if op[0] in ('arm', 'run'):
+        if s.get('rewired'):
+            # the routing invariant speaks about the current wiring; after a re-wiring of a name in use only the
+            # wiring-independent part is judged: nothing is held outside the registration records
+            judges.append((i, 'rec', sx(['c18', 'judge-rec', js])))
+        else:
+            judges.append((i, 'inv', sx(['c18', 'judge', js])))
+        if op[0] in ('arm', 'run') and not s.get('rewired'):
             judges.append((i, 'arm', sx(['c18', 'judge-arm', state_sx(last_j), op[1], js])))
         elif op[0] == 'remove':
             judges.append((i, 'gone', sx(['c18', 'judge-gone', js, op[1]])))
@@ -533,8 +554,12 @@ def evaluate(ctx, histories, label, fix=True, register_cases=True, compare=True)
             m_ok = t[0] == 'ok'
             rewire = (t[1] if m_ok else t[2]) == 'true'
             # -- judge the implementation's state -------------------------------------------------
-            if s['res'] == 'ok' and judging and not (rewire):
+            if s['res'] == 'ok':
                 for kind, verdict in verdicts.get(i, []):
+                    if kind in ('inv', 'arm') and not (judging and not rewire):
+                        continue        # outside the statement: the wiring of a name in use was changed
+                    # 'gone' (after remove / clear) and 'rec' are judged on every device of the bench, wired or
+                    # not, re-wired history or not
                     if verdict != 'ok':
                         violations.append((hi, i, '%s after %s: %s' % (kind, describe(op), verdict)))
             if s['res'] == 'ok' and rewire:
@@ -662,8 +687,16 @@ def history_generator(rng, cfg, ndacs, length, rewire_ok):
         return used_ch, used_m
 
     def gen(w):
+        sparse = rewire_ok == 2
+        if sparse:
+            # un-wiring histories: every device under one name only, so that re-wiring that name takes the device
+            # out of the setup while it still holds programs
+            for cid in range(len(cfg)):
+                yield ('set-channel', cid, False, [('o', cid, PB, rng.randrange(cfg[cid][0]), cid)])
+            for m in range(ndacs):
+                yield ('set-measurement', m, False, [(m, m, m * 4 + m)])
         # initial wiring: several outputs per name, several names per device
-        nch_ids = rng.randrange(3, 7)
+        nch_ids = 0 if sparse else rng.randrange(3, 7)
         taken = set()
         for cid in range(nch_ids):
             outs = []
@@ -676,7 +709,7 @@ def history_generator(rng, cfg, ndacs, length, rewire_ok):
                         break
             yield ('set-channel', cid, False, outs)
         taken_m = set()
-        for m in range(rng.randrange(2, 5)):
+        for m in range(0 if sparse else rng.randrange(2, 5)):
             masks = []
             for _ in range(rng.choice([1, 1, 2])):
                 d, k = rng.randrange(ndacs), rng.randrange(4)
@@ -690,6 +723,8 @@ def history_generator(rng, cfg, ndacs, length, rewire_ok):
             registered = sorted(w.unk.idx('p', n) for n in w.hs._registered_programs)
             used_ch, used_m = used_names(w)
             r = rng.random()
+            if sparse and r < 0.45:
+                r = 0.70 + r / 1.5           # un-wiring histories: twice as many wiring operations
             if r < 0.40:
                 if registered and rng.random() < 0.55:
                     n = rng.choice(registered)              # re-registration, often with other channels
@@ -713,7 +748,7 @@ def history_generator(rng, cfg, ndacs, length, rewire_ok):
             elif r < 0.86:
                 # channel wiring: mostly names no registered program uses
                 free = sorted(set(range(8)) - used_ch)
-                if rewire_ok and used_ch and rng.random() < 0.5:
+                if rewire_ok and used_ch and rng.random() < (0.8 if sparse else 0.5):
                     cid = rng.choice(sorted(used_ch))
                 elif free:
                     cid = rng.choice(free)
@@ -735,7 +770,7 @@ def history_generator(rng, cfg, ndacs, length, rewire_ok):
                     yield ('set-channel', cid, allow, specs)
             else:
                 free = sorted(set(range(6)) - used_m)
-                if rewire_ok and used_m and rng.random() < 0.5:
+                if rewire_ok and used_m and rng.random() < (0.8 if sparse else 0.5):
                     m = rng.choice(sorted(used_m))
                 elif free:
                     m = rng.choice(free)
@@ -774,6 +809,30 @@ EXH_ALPHABET = (
     [('register', 1, EXH_PROGS[k], True, True, None) for k in 'XY'] +
     [('remove', 0), ('remove', 1), ('clear',), ('arm', 0), ('arm', 1)]
 )
+
+
+# second exhaustive space: re-wiring between registration and removal / clearing.  Every device under one name.
+UNW_CFG = ([(1, 0), (1, 0)], 2)
+UNW_SETUP = [
+    ('set-channel', 0, False, [('o', 0, PB, 0, 1)]),
+    ('set-measurement', 0, False, [(0, 0, 0)]),
+]
+_P = ((0,), ((0, _W),), 0)
+_Q = ((0,), (), 0)
+UNW_ALPHABET = [
+    ('register', 0, _P, True, True, None),
+    ('register', 1, _Q, True, True, None),
+    ('set-channel', 0, False, [('o', 1, PB, 0, 2)]),       # channel 0 moves to the second generator
+    ('set-channel', 0, True, [('o', 0, PB, 0, 1)]),        # ... and back
+    ('rm-channel', 0),
+    ('set-measurement', 0, False, [(1, 1, 5)]),            # measurement 0 moves to the second device
+    ('remove', 0), ('remove', 1), ('clear',), ('arm', 0),
+]
+
+
+def unwiring_histories(length):
+    for seq in itertools.product(UNW_ALPHABET, repeat=length):
+        yield UNW_SETUP + list(seq)
 
 
 def exhaustive_histories(length):
@@ -964,8 +1023,9 @@ RULE = ('histories of public HardwareSetup operations on real DummyAWG/DummyDAC 
         'several outputs per name and several names per device (2-3 AWGs with 2-4 channels and 0-2 markers, '
         '2 DACs), random histories incl. re-registration with other channels/measurements, explicit '
         'measurements, malformed calls (non-callable callback, unknown names, out-of-range outputs, '
-        'double registration, junk elements); plus every history up to a fixed length over a 15-letter '
-        'alphabet on a fixed wiring. Non-trivial = a normally returning register/remove/clear/arm/run step; '
+        'double registration, junk elements, 10 % with re-wiring of names in use and 10 % un-wiring histories '
+        '(every device under one name, re-wired between register and remove/clear)); plus every history up to a '
+        'fixed length over a 15-letter alphabet on a fixed wiring and over a 10-letter re-wiring alphabet. Non-trivial = a normally returning register/remove/clear/arm/run step; '
         'distinct by operation and history prefix')
 
 
@@ -975,7 +1035,7 @@ def random_jobs(rng, n, length):
     for i in range(n):
         seed = rng.getrandbits(64)
         cfg, ndacs = random_cfg(random.Random(seed))
-        jobs.append((seed, cfg, ndacs, length, i % 10 == 9))
+        jobs.append((seed, cfg, ndacs, length, 1 if i % 10 == 9 else 2 if i % 10 == 4 else 0))
     return jobs
 
 
@@ -983,7 +1043,8 @@ def run(ctx: core.Ctx):
     ctx.rule = RULE
     ctx.assumptions = [
         'interpretation: re-wiring a channel or measurement name that a registered program uses, without '
-        're-registering the program, is outside the statement (histories are judged up to such a step)',
+        're-registering the program, is outside the routing statement (Inv and ArmSpec are judged up to such a step); '
+        'the record invariant RecInv and Gone after remove/clear are judged on every device in every history',
         'two names of one program wired to the very same output / mask: the invariant only demands that one of '
         'them is there (which one depends on set iteration order)',
         'histories end at a call that raises ProgramOverwriteException (the call may leave a partial upload behind; '
@@ -1001,6 +1062,14 @@ def run(ctx: core.Ctx):
                                  '(%d histories)' % (exh_len, len(EXH_ALPHABET), len(jobs)))
     run_chunks(ctx, 'ops', jobs, 'exh', 1000)
 
+    # exhaustive re-wiring scope (register / re-wire / remove / clear on devices that drop out of the wiring)
+    unw_len = ctx.n(3, 4)
+    jobs = [(UNW_CFG[0], UNW_CFG[1], UNW_SETUP)]
+    jobs += [(UNW_CFG[0], UNW_CFG[1], ops, len(UNW_SETUP)) for ops in unwiring_histories(unw_len)]
+    ctx.exhaustive_spaces.append('all histories of length %d over %d operations incl. re-wiring of the only name of a '
+                                 'device (%d histories)' % (unw_len, len(UNW_ALPHABET), len(jobs) - 1))
+    run_chunks(ctx, 'ops', jobs, 'unw', 1000)
+
     # random histories
     run_chunks(ctx, 'random', random_jobs(ctx.fork('histories'), ctx.n(500, 20000), 25), 'rnd', 250,
                deadline=None if ctx.quick else 600)
@@ -1013,6 +1082,7 @@ def run(ctx: core.Ctx):
 def search(ctx):
     """model and implementation differ but no judged state violated the property: look further (judge only)"""
     jobs = [(EXH_CFG[0], EXH_CFG[1], ops, len(EXH_SETUP)) for ops in exhaustive_histories(3)]
+    jobs += [(UNW_CFG[0], UNW_CFG[1], ops, len(UNW_SETUP)) for ops in unwiring_histories(3)]
     if run_chunks(ctx, 'ops', jobs, 'search', 1000, compare=False):
         return
     run_chunks(ctx, 'random', random_jobs(ctx.fork('search'), ctx.n(300, 3000), 30), 'search', 250, compare=False)
